@@ -1,4 +1,4 @@
-CONSTANT Sets = {1, 2, 4}
+CONSTANT Sets = {1, 2, 4, 5}
 CONSTANT Gs = {1, 2, 3, 4, 16}
 CONSTANT Reps = 2
 INIT Init
